@@ -18,6 +18,7 @@
 -/
 import BioCantor.Base
 import BioCantor.Model.Location
+import BioCantor.Model.ParentKey
 import BioCantor.Gen.Tables
 namespace BioCantor.Model.Validate
 open BioCantor BioCantor.Model
@@ -343,6 +344,130 @@ def mkVarCollOf (vs : List Blk) : V Blk :=
 def mkVarColl (raw : List (Int × Int)) : V Blk := do
   let vs ← raw.mapM (fun p => mkVariant p.1 p.2)
   mkVarCollOf vs
+
+/-- `VariantInterval.__init__` (parent-less) with its ALT sequence: window of at least 1 bp, a SingleInterval, then
+    `Sequence(sequence, Alphabet.NT_STRICT_UNKNOWN)` -/
+def mkVariantFull (ntUnknown : List Char) (s e : Int) (alt : List Char) : V Blk := do
+  let b ← mkVariant s e
+  if alphabetOk ntUnknown alt then pure b else raise .Alphabet
+
+/-! ### FeatureInterval -/
+
+/-- what `_import_qualifiers_from_list` looks at: None / a non-dict / a dict whose values are (or are not) lists -/
+inductive QualShape where
+  | none
+  | notDict (truthy : Bool)          -- e.g. a list of pairs; an empty non-dict is falsy and therefore ignored
+  | dict (valuesAreLists : List Bool)
+  deriving DecidableEq, Repr, Inhabited
+
+/-- `AbstractInterval._import_qualifiers_from_list` -/
+def checkQualifiers : QualShape → V Unit
+  | .none => pure ()
+  | .notDict t => if t then raise .Validation else pure ()
+  | .dict vals => if vals.all id then pure () else raise .Validation
+
+structure FeatOut where
+  start : Int
+  endp : Int
+  blocks : List IBlk
+  deriving DecidableEq, Repr, Inhabited
+
+/-- `FeatureInterval.__init__` (parent-less): location, `start = interval_starts[0]`, `end = interval_ends[-1]`,
+    qualifiers -/
+def mkFeature (starts ends : List Int) (st : Strand) (q : QualShape) : V FeatOut := do
+  let _ ← initLoc starts ends st
+  match starts.head?, ends.getLast? with
+  | some s0, some eN => do
+      checkQualifiers q
+      pure ⟨s0, eN, starts.zip ends⟩
+  | _, _ => raise .Location              -- unreachable: initLoc refused empty lists
+
+/-! ### GeneInterval / FeatureIntervalCollection -/
+
+/-- what the collection constructors read of a child: genomic start / end, guid, the primary flag -/
+structure Child where
+  start : Int
+  endp : Int
+  guid : Nat
+  primary : Bool
+  deriving DecidableEq, Repr, Inhabited
+
+def minStartC : List Child → Int
+  | [] => 0
+  | [c] => c.start
+  | c :: cs => min c.start (minStartC cs)
+
+def maxEndC : List Child → Int
+  | [] => 0
+  | [c] => c.endp
+  | c :: cs => max c.endp (maxEndC cs)
+
+/-- `_find_primary_feature`, validation half: more than one flagged child raises ValidationException
+    (`if primary_feature is not None`, 91b82e4) -/
+def checkPrimary (cs : List Child) : V Unit :=
+  if (cs.filter (·.primary)).length > 1 then raise .Validation else pure ()
+
+/-- the `guid_map` loop: a guid seen twice raises Duplicate{Transcript,Feature}Error -/
+def checkGuids : List Nat → List Nat → V Unit
+  | _, [] => pure ()
+  | seen, g :: rest => if seen.contains g then raise .InvalidAnnotation else checkGuids (g :: seen) rest
+
+/-- `GeneInterval.__init__` (`geneOrder = true`: primary, then location) and `FeatureIntervalCollection.__init__`
+    (location, then primary), parent-less: children non-empty, qualifiers, primary flags, `start = min`, `end = max`,
+    `SingleInterval(start, end, PLUS)`, duplicate guids -/
+def mkColl (geneOrder : Bool) (cs : List Child) (q : QualShape) : V (Int × Int) := do
+  if cs.isEmpty then raise .InvalidAnnotation
+  checkQualifiers q
+  if geneOrder then checkPrimary cs
+  let s := minStartC cs
+  let e := maxEndC cs
+  let _ ← liftR (mkSingle s e .plus)
+  if !geneOrder then checkPrimary cs
+  checkGuids [] (cs.map (·.guid))
+  pure (s, e)
+
+/-! ### AnnotationCollection -/
+
+inductive AnnotOut where
+  | empty                               -- `_location = EmptyLocation()`: no `start` / `end` attribute at all (F-C19f)
+  | bounds (s e : Int)
+  deriving DecidableEq, Repr, Inhabited
+
+/-- `AnnotationCollection.__init__` (parent-less): `start`/`end` both or neither; inferred from the children when
+    absent; `SingleInterval(start, end, PLUS)`; the guid map is a dict comprehension - duplicates are NOT detected
+    (F-C19o) -/
+def mkAnnot (start endp : Option Int) (kids : List Child) : V AnnotOut :=
+  match start, endp with
+  | none, some _ => raise .InvalidAnnotation
+  | some _, none => raise .InvalidAnnotation
+  | some s, some e => do let _ ← liftR (mkSingle s e .plus); pure (.bounds s e)
+  | none, none =>
+      if kids.isEmpty then pure .empty
+      else do
+        let s := minStartC kids
+        let e := maxEndC kids
+        let _ ← liftR (mkSingle s e .plus)
+        pure (.bounds s e)
+
+/-! ### Codon -/
+
+/-- `Codon.__init__`: `str(codon).upper()`, length 3, letters of `ATUCGNWSMKRYBDHV` (`Gen.codonAlphabet`) -/
+def mkCodon (codonAlphabet : List Char) (s : List Char) : V (List Char) :=
+  let v := s.map pyUpper
+  if v.length ≠ 3 then raise .ValueError
+  else if (stripBoth codonAlphabet v).isEmpty then pure v else raise .ValueError
+
+/-! ### Sequence.append of two located single-interval pieces; parent compatibility of operand lists -/
+
+/-- `from_single_intervals`: the set of `parent.strip_location_info()` (hash + `__eq__`: every field, the
+    grand-parent included) must have one element; `keys` are the parents as `PKey` chains (`[]` = None) -/
+def fsiParents (keys : List PKey) : V Unit :=
+  match keys with
+  | [] => raise .ValueError                         -- "List of intervals must be nonempty"
+  | k :: rest => if rest.all (fun k' => decide (k' = k)) then pure () else raise .ValueError
+
+/-- the parent test of the binary operations (`require_parents_equal_except_location`) -/
+def binaryParents (a b : PKey) : V Unit := liftR (requireParentsEq a b)
 
 /-! ### scan_windows -/
 
